@@ -100,6 +100,7 @@ func c04Run(c c04Case) (fail *vlib.Failure, rs c04Stats) {
 
 	for i, op := range c.Ops {
 		when := fmt.Sprintf("op %d (%s)", i, op.Kind)
+		m.flushedLeaf = nil
 		m.flushed, m.allocs, m.failAt, m.failErr, m.handed = nil, 0, op.FailAt, nil, nil
 		space := active
 		if op.Kind == "pdtMap" || op.Kind == "pdtUnmap" || op.Kind == "activate" {
@@ -280,6 +281,9 @@ func c04Run(c c04Case) (fail *vlib.Failure, rs c04Stats) {
 			for _, p := range changed {
 				if !flushedHas(p) {
 					return vlib.Failf("%s: the translation of page %#x changed but its TLB entry was not invalidated (flushed: %#x)", when, p, m.flushed), rs
+				}
+				if stale := m.staleAfterFlush(p); stale != "" {
+					return vlib.Failf("%s: page %#x: %s", when, p, stale), rs
 				}
 			}
 		} else if op.Kind != "activate" {
